@@ -27,7 +27,7 @@ S3x4 = shape(3, 4, 3, [1, 2, 3, 1, 3, 3, 2, 1, 2, 2, 1, 3], 3)
 S3x4b = shape(3, 4, 2, [1, 2, 1, 1, 2, 2, 2, 1, 1, 2, 1, 2], 2)
 
 DEFAULTS = dict(MaxSize=2, UseTimer=True, MaxKFires=1, MaxOFires=1, MaxBarriers=1, MaxTicks=0, MaxRead=2, WithEOI=False,
-                Dev_SnapshotAfterNextRead=False, MaxLen=100000)
+                AtomicFlush=True, Dev_SnapshotAfterNextRead=False, MaxLen=100000)
 
 
 def consts(sh, **over):
@@ -66,6 +66,8 @@ def brief(cc):
 
 def replay(c, cc, nbeh, seed, restart, depth=None, label=""):
     """TLC-simulated behaviours of Pipeline.tla forced onto a real SourceRunner"""
+    if c.violations:
+        return [], {}     # witnesses exist already; diverging replays are slow
     behs, r = vlib.gen_behaviours("Pipeline", cc, nbeh, depth or cc["MaxLen"] + 30, seed)
     cfg = dict(cc, KeyGroups=8, Restart=restart, Chunk=40)
     payload = dict(property=c.prop, seed=c.seed, config=cfg, behaviours=behs)
@@ -74,6 +76,36 @@ def replay(c, cc, nbeh, seed, restart, depth=None, label=""):
     if behs:
         c.sample(dict(kind="Pipeline behaviour (first steps)", config=brief(cc), steps=behs[0][:10]))
     return behs, res
+
+
+def racy(beh):
+    """one key-by flusher takes a batch while the other sits between Flush and Reserve"""
+    pc = {"c": "idle", "t": "idle"}
+    for s in beh:
+        if s["a"] == "KTake":
+            other = "t" if s["g"] == "c" else "c"
+            if pc[other] == "reserve":
+                return True
+            pc[s["g"]] = "reserve" if s["took"] else "idle"
+        elif s["a"] == "KReserve":
+            pc[s["g"]] = "idle"
+    return False
+
+
+def adversarial(c, cc, nbeh, keep, seed):
+    """schedules only a non-atomic ReorderFetcher.flush admits (AtomicFlush = FALSE): the code must serialise them"""
+    if c.violations:
+        return
+    cc = dict(cc, AtomicFlush=False)
+    behs, r = vlib.gen_behaviours("Pipeline", cc, nbeh, cc["MaxLen"] + 30, seed)
+    behs = [b for b in behs if racy(b)][:keep]
+    if not behs:
+        raise vlib.MachineryError("no racy behaviours generated")
+    payload = dict(property=c.prop, seed=c.seed, config=dict(cc, KeyGroups=8, Restart=False, Adversarial=True, Chunk=40), behaviours=behs)
+    res = vlib.run_harness("pipeline", payload)
+    c.add_harness(res, payload, "Pipeline adversarial (non-atomic key-by flush schedules) %s" % brief(cc))
+    if not res.get("counters", {}).get("serialised") and not res.get("violations"):
+        c.errors.append("adversarial replay: no schedule reached the point where the code has to serialise the flushers")
 
 
 def self_test_replay(c, cc, seed):
@@ -127,17 +159,20 @@ def validate(c, sh, events, label):
 def traces(c, runs, seed):
     """free-running seeded runs of the real runner, recorded and validated by PipelineTrace.tla"""
     sh, payload, res, events = record(c, runs, seed)
-    go_viol = {v["behaviour"]: v for v in res.get("violations", [])}
+    go_viol = {}
+    for v in res.get("violations", []):
+        go_viol.setdefault(v["behaviour"], []).append(v)
     for e in res.get("errors", []):
         c.errors.append("pipeline trace mode: " + e)
     c.extra.setdefault("trace_runs", []).append(dict(runs=res.get("executed", 0), counters=res.get("counters", {}), events=len(events)))
     pending = events
-    rejected = set()
-    for _ in range(6):
-        if not pending:
+    rejected, accepted = set(), set()
+    for _ in range(10):
+        if not pending or len(c.violations) >= 3:
             break
         ok, at, tr = validate(c, sh, pending, "seed %d" % seed)
         if ok:
+            accepted.update(e.get("run") for e in pending if e.get("op") == "Reset")
             c.traces += sum(1 for e in pending if e.get("op") == "Reset")
             runs_ = vlib.split_runs(pending)
             if runs_ and len(c.samples) < 6:
@@ -149,8 +184,10 @@ def traces(c, runs, seed):
         end = nxt[0] if nxt else len(pending)
         ri = pending[start].get("run")
         rejected.add(ri)
+        accepted.update(e.get("run") for e in pending[:start] if e.get("op") == "Reset")
         c.traces += sum(1 for e in pending[:start] if e.get("op") == "Reset")
-        gv = go_viol.get(ri)
+        gvs = go_viol.get(ri)
+        gv = None if gvs is None else ([v for v in gvs if v.get("property") == c.prop] or gvs)[0]
         what = "free run rejected by PipelineTrace.tla (%s) at event %d: %s" % (
             tr.violated or "no action explains it", at - start, json.dumps(pending[at - 1]))
         if gv is None:
@@ -158,9 +195,9 @@ def traces(c, runs, seed):
         elif gv.get("property") == c.prop:
             c.add_violation(what + " -- " + gv["what"], dict(mode="trace-run", property=c.prop, shape=sh, recorded_run=pending[start:end], violation=gv))
         pending = pending[end:]
-    for ri, gv in go_viol.items():
-        if ri not in rejected:
-            c.errors.append("trace verdicts disagree: Go predicates reject run %s (%s) but PipelineTrace.tla accepts it" % (ri, gv["what"]))
+    for ri, gvs in go_viol.items():
+        if ri in accepted:
+            c.errors.append("trace verdicts disagree: Go predicates reject run %s (%s) but PipelineTrace.tla accepts it" % (ri, gvs[0]["what"]))
     return sh, events
 
 
